@@ -150,6 +150,7 @@ class TlcResult:
         self.wall = 0.0
         self.cmd = ""
         self.depth = 0
+        self.vacuous = False
 
 
 def tlc(module, cfg=None, workers=8, simulate=None, depth=None, env=None, timeout=600, coverage=False,
@@ -211,8 +212,9 @@ def tlc(module, cfg=None, workers=8, simulate=None, depth=None, env=None, timeou
         res.violation = "temporal"
     elif "Deadlock reached" in res.out:
         res.violation = "deadlock"
-    elif re.search(r"The postcondition.*(false|violated)", res.out, re.I | re.S) and res.rc != 0:
+    elif re.search(r"Postcondition (\S+) .*is false", res.out):
         res.violation = "postcondition"
+        res.vacuous = True
     if res.rc not in (0, 12, 13) and not res.violation and not res.error:
         res.error = "tlc exit %s" % res.rc
     # BEH lines: printed as <<"BEH", "json...">>
@@ -245,9 +247,8 @@ def counterexample(res):
 
 def on_lattice(x, scale, tol=1e-9):
     """Return the integer n with x = n/scale, or None when x is off the lattice."""
-    v = x * scale
-    n = round(v)
-    if abs(v - n) <= tol * max(1.0, abs(v)):
+    n = round(x * scale)
+    if abs(x - n / scale) <= tol * max(1.0, abs(x)):
         return int(n)
     return None
 
@@ -311,6 +312,8 @@ class Ctx:
 
     def add_tlc(self, res, what="", exhaustive=True):
         require_ok(res, what or "tlc")
+        if res.vacuous:
+            raise MachineryError("%s: vacuity gate failed (a witness register was never set): the bounded model never exercised an antecedent" % what)
         self.states += res.distinct
         self.transitions += res.generated
         self.cmds.append(res.cmd)
